@@ -1,4 +1,9 @@
 import KG.Driver.Loop
 import KG.Driver.C04
-/-! Model driver for property C04 (one executable per property, so that properties stay independent). -/
-def main : IO Unit := KG.Driver.runLoop [("C04", KG.Driver.C04.handle)]
+import KG.Driver.C04Gateway
+/-! Model driver for property C04 (one executable per property, so that properties stay independent).
+    `C04.gateway` is the composed data-plane model (`KG.Driver.C04Gateway`); everything else is `KG.Driver.C04`. -/
+def main : IO Unit := KG.Driver.runLoop [("C04", fun m a =>
+  match KG.Driver.C04Gateway.handle m a with
+  | some x => some x
+  | none => KG.Driver.C04.handle m a)]
